@@ -13,6 +13,9 @@ pub struct Scene {
     /// candidate starting points: (spelling relative to `dir`, wire form)
     pub roots: Vec<(Vec<u8>, String)>,
     pub names: Vec<Vec<u8>>,
+    /// further starting points with a directory part in their spelling (a file and a directory
+    /// below `outside`, `./plain`, an entry of `r0` named directly)
+    pub extra: Vec<(Vec<u8>, String)>,
 }
 
 pub fn simple_names() -> Vec<Vec<u8>> {
@@ -58,7 +61,32 @@ pub fn build_scene(ctx: &Ctx, rng: &mut Rng, names: Vec<Vec<u8>>, links: bool) -
     for c in cands {
         roots.push((c.as_bytes().to_vec(), observe_root(c.as_bytes(), &dir.join(c))));
     }
-    Scene { dir, roots, names }
+    let mut extra = vec![];
+    let mut ecands: Vec<Vec<u8>> = vec![b"outside/of".to_vec(), b"outside/o0".to_vec(), b"./plain".to_vec(), b"outside//o1".to_vec()];
+    if let Ok(rd) = std::fs::read_dir(dir.join("r0")) {
+        use std::os::unix::ffi::OsStrExt;
+        let mut kids: Vec<Vec<u8>> = rd.flatten().map(|e| e.file_name().as_bytes().to_vec()).filter(|n| std::str::from_utf8(n).is_ok()).collect();
+        kids.sort();
+        if let Some(k) = kids.first() {
+            let mut p = b"r0/".to_vec();
+            p.extend(k);
+            ecands.push(p);
+        }
+    }
+    for c in ecands {
+        use std::os::unix::ffi::OsStrExt;
+        extra.push((c.clone(), observe_root(&c, &dir.join(std::ffi::OsStr::from_bytes(&c)))));
+    }
+    Scene { dir, roots, names, extra }
+}
+
+/// starting points for the -exec properties: also spellings with a trailing slash, a leading `./`
+/// and a directory part (the working directory of -execdir depends on them)
+pub fn pick_exec_roots(rng: &mut Rng, sc: &Scene) -> Vec<(Vec<u8>, String)> {
+    let n = match rng.below(10) { 0..=5 => 1, 6..=8 => 2, _ => 3 };
+    let mut pool: Vec<(Vec<u8>, String)> = sc.roots.iter().take(6).cloned().collect();
+    pool.extend(sc.extra.iter().cloned());
+    (0..n).map(|_| pool[rng.below(pool.len())].clone()).collect()
 }
 
 pub fn pick_roots(rng: &mut Rng, sc: &Scene, simple_only: bool) -> Vec<(Vec<u8>, String)> {
